@@ -59,6 +59,7 @@ class Profile:
         self.edge_weight = 0.45
         self.call_weight = 3
         self.scope_weight = 1
+        self.lc_prob = 0.1            # shadowing profile: probability that a label is named like a := constant
         self.org_weight = 2
         self.block_weight = 2
         self.min_calls = 0
@@ -84,6 +85,7 @@ class GS:
         self.inline_names: set[str] = set()  # names defined in .if branches written in this scope (same assembler scope)
         self.refs: set[str] = set()          # constant names already referenced from this scope or below it
         self.scope_names: set[str] = set()   # named scopes written directly in this scope
+        self.lc_pending: set[str] = set()    # labels named like a := constant, not written yet (fill pass)
         self.params: list[str] = []
         self.wide: str | None = None      # macro parameter used in unsized operands (arguments of several width classes)
         self.loopvar: tuple | None = None
@@ -127,7 +129,7 @@ class ProgGen:
                 real = real.parent
             # a constant must not be (re)defined in a scope after something in that scope already referred to the
             # outer constant of the same name ("= / := constants are not referenced before their definition")
-            taken = set(gs.consts) | set(real.consts) | real.inline_names | gs.refs | real.refs
+            taken = set(gs.consts) | set(real.consts) | real.inline_names | gs.refs | real.refs | set(gs.labels) | set(real.labels)
             cand = [n for n in pool if n not in taken]
             if cand:
                 return self.rng.choice(cand)
@@ -227,6 +229,13 @@ class ProgGen:
             node = {"k": k}
             if k in ("label", "selfptr"):
                 node["n"] = self.fresh_label(gs)
+                if self.p.shadowing and not in_macro and gs.kind in ("block", "named", "loop") and rng.random() < self.p.lc_prob:
+                    # a label that shadows a := constant of an enclosing scope: from its statement on, the name means the
+                    # label (known at layout time only) in this scope and below
+                    cand = [n_ for n_ in ("kx_a", "kx_b", "kx_c") if n_ not in gs.labels and n_ not in gs.consts and n_ not in gs.inline_names and n_ not in gs.refs]
+                    if cand:
+                        node["n"] = rng.choice(cand)
+                        gs.lc_pending.add(node["n"])
                 gs.labels.append(node["n"])
                 self._note_inline(gs, node["n"])
             elif k in ("block", "for"):
@@ -293,7 +302,26 @@ class ProgGen:
         return defs
 
     # ---- fill ----------------------------------------------------------------------------------------
+    def blocked(self, gs: GS) -> set:
+        """names that must not be mentioned here yet: a label named like a constant is planned in an enclosing scope but
+        its statement has not been written (before it, the assembler still sees the outer constant at expansion time)"""
+        out, s = set(), gs
+        while s is not None:
+            out |= s.lc_pending
+            s = s.parent
+        return out
+
+    def label_consts(self, gs: GS) -> set:
+        out, s = set(), gs
+        while s is not None:
+            out |= {n for n in s.labels if n.startswith("kx_")}
+            s = s.parent
+        return out
+
     def visible_labels(self, gs: GS) -> list[str]:
+        return [n for n in self._visible_labels(gs) if n not in self.blocked(gs)]
+
+    def _visible_labels(self, gs: GS) -> list[str]:
         names = []
         s = gs
         while s is not None:
@@ -326,7 +354,8 @@ class ProgGen:
             s = s.parent
         for s in reversed(chain):
             vals.update(s.xc)
-        return vals
+        hide = self.blocked(gs) | self.label_consts(gs)
+        return {k: v for k, v in vals.items() if k not in hide}
 
     def lit(self, lo=0, hi=0xFFFF):
         rng = self.rng
@@ -467,6 +496,8 @@ class ProgGen:
         out = []
         for node in nodes:
             k = node["k"]
+            if k in ("label", "selfptr"):
+                gs.lc_pending.discard(node["n"])
             if k == "label":
                 out.append({"k": "label", "n": node["n"]})
             elif k == "selfptr":
@@ -532,6 +563,10 @@ class ProgGen:
                 form = rng.random()
                 if node.get("certain"):
                     c = ["lit", rng.choice([1, 2, 5, 0xFF]), rng.choice(["d", "x"])]
+                elif form < 0.3 and self.p.shadowing and self.label_consts(gs) - self.blocked(gs):
+                    # a name that means a label here (an outer := constant of the same name must not leak in): undefined
+                    # at expansion time, hence false
+                    c = ["id", rng.choice(sorted(self.label_consts(gs) - self.blocked(gs)))]
                 elif form < 0.15:
                     c = ["id", "k_undefined"]
                 elif form < 0.3:
